@@ -113,6 +113,7 @@ def cases(draw):
         if draw(st.booleans()):
             a0 = draw(st.integers(0, shape[0] - 1))
             c["active"] = [a0, draw(st.integers(a0 + 1, shape[0]))]
+        c["shift"] = draw(st.sampled_from([0, 0, 0, 1, 3, shape[0]]))
     if c["req"]["kind"] in ("div", "floordiv"):
         c["depth"] = 0            # the infix shorthands split the top rank
     if draw(st.integers(0, 2)) == 0 and not c["req"]["relative"] and c["req"]["kind"] not in ("div", "floordiv"):
@@ -161,6 +162,16 @@ def norm_req(req, S, nstored):
 # ---------------------------------------------------------------- fiber level (structure)
 def check_fiber(case, rec, spec, req, active):
     d, default, shape = model.depth(spec), spec["default"], spec["shape"]
+    k = case.get("shift") or 0
+    if k and req["kind"] not in ("div", "floordiv"):
+        # the same fiber k coordinates further down: negative coordinates (what a projection c -> c - k leaves),
+        # the active range and the requested boundaries move along
+        spec = dict(spec, tree=[[c - k, ch] for c, ch in spec["tree"]])
+        active = [(active[0] if active else 0) - k, (active[1] if active else shape[0]) - k]
+        if req["kind"] == "nonuniform":
+            req = dict(req, param=[b - k for b in req["param"]])
+        case = dict(case, req2=None)
+        rec.cls("negative-coordinates", any(c < 0 for c, _ in spec["tree"]))
     f = build.build_fiber(spec)
     if active:
         f.setActive(tuple(active))
@@ -246,7 +257,7 @@ def check(case, rec):
         nt = classify(rec, want, norm_req(req, shape[0], len(spec["tree"])), spec, d, default)
         rec.cls("fiber-level")
         rec.cls("active-range", case["active"] is not None)
-        if case["req2"]:
+        if case["req2"] and not case.get("shift"):
             # re-split every partition: partitions of partitions tile the original
             req2 = case["req2"]
             for (b, (lo, hi), elems), lower in zip(want, got.payloads):
